@@ -10,6 +10,7 @@ import BevySyncModel.Http
 import BevySyncModel.Slice.Comp
 import BevySyncModel.Slice.Panic
 import BevySyncModel.Slice.Skin
+import BevySyncModel.Slice.Fix
 /-! `bsmodel`: runs the executable model definitions on the cases the Rust harness prints, one line
 in, one line out (`ok <id>` / `MISMATCH <id> <what>`).  Lines starting with `#` are ignored.
 Only model files are imported (no proofs, no Mathlib), so this links as a native executable.
@@ -506,6 +507,48 @@ def checkSkin (toks : List String) : String :=
     if m.1 == parseNats ex then "ok" else "MISMATCH skin: model joints differ from the receiver's SkinnedMesh.joints"
   | _ => "MISMATCH parse skin"
 
+/-! ### companion fixes (C17): `fixrun <id> <reinserts> ar:kind:v;ac:Companion;fr:8.3.0…;x:Comp.Comp…` -/
+def kindOf (s : String) : Option Fix.Kind :=
+  match s with
+  | "transform" => some .transform | "visibility" => some .visibility | "pointLight" => some .pointLight
+  | "spotLight" => some .spotLight | "dirLight" => some .dirLight | _ => none
+
+def companionNames : List (String × Fix.Companion) :=
+  [("GlobalTransform", .globalTransform), ("InheritedVisibility", .inheritedVisibility), ("ViewVisibility", .viewVisibility),
+   ("CubemapFrusta", .cubemapFrusta), ("CubemapVisibleEntities", .cubemapVisibleEntities), ("Frustum", .frustum),
+   ("CascadesFrusta", .cascadesFrusta), ("CascadesVisibleEntities", .cascadesVisibleEntities), ("Cascades", .cascades),
+   ("CascadeShadowConfig", .cascadeShadowConfig)]
+
+def companionOf (s : String) : Option Fix.Companion := (companionNames.find? (fun p => p.1 == s)).map (·.2)
+
+def presentNames (e : Fix.Ent) : List String :=
+  ((companionNames.filter (fun p => e.has p.2)).map (·.1)).toArray.qsort (· < ·) |>.toList
+
+def checkFixRun (toks : List String) : String :=
+  match toks with
+  | [re, script] =>
+    let reins := re == "1"
+    let rec go (e : Fix.Ent) (n : Nat) : List String → String
+      | [] => "ok"
+      | t :: rest =>
+        match t.splitOn ":" with
+        | ["ar", k, v] => match kindOf k with
+          | some k => go (Fix.step reins e (.arrive k v.toNat!)) (n + 1) rest
+          | none => "MISMATCH parse fix kind"
+        | ["ac", c] => match companionOf c with
+          | some c => go (Fix.step reins e (.addCompanion c)) (n + 1) rest
+          | none => "MISMATCH parse fix companion"
+        | ["fr", order] =>
+          let ord := if order == "" then [] else (order.splitOn ".").map String.toNat!
+          go (Fix.run reins e (Fix.frame ord)) (n + 1) rest
+        | ["x", names] =>
+          let obs := if names == "-" then [] else names.splitOn "."
+          if presentNames e == obs then go e (n + 1) rest
+          else s!"MISMATCH fix: after {n} script steps the model has companions {presentNames e}, the implementation {obs}"
+        | _ => "MISMATCH parse fix script"
+    go {} 0 (script.splitOn ";")
+  | _ => "MISMATCH parse fixrun"
+
 def handle (st : DState) (line : String) : DState × Option String :=
   let line := line.trimAscii.toString
   if line.isEmpty || line.startsWith "#" then (st, none)
@@ -531,6 +574,7 @@ def handle (st : DState) (line : String) : DState × Option String :=
         | "reflect" => checkReflect rest
         | "fault" => checkFault rest
         | "skin" => checkSkin rest
+        | "fixrun" => checkFixRun rest
         | _ => "MISMATCH unknown line kind"
       (st, some s!"{r} {id}")
     | _ => (st, some "MISMATCH parse ?")
